@@ -561,9 +561,22 @@ Definition mkplan (s : ast) (e : list Z) : plan :=
             end
         end
     | 42 => (* timeout_handler: io_flag.fetch_or(TIMER_MARK) -> old; the entry was popped because it is due *)
-        match zassoc (oflag x) obj with
+        (* the io_flag word of a connecting descriptor is not known before the re-check of its first kernel half; a timer
+           that expires while that kernel half is held up before the store tells it: the descriptor in use with an
+           armed timer and no known word *)
+        match (match (match zassoc (oflag x) obj with Some f' => if closed m f' then None else Some f' | None => None end) with
+               | Some f' => Some (f', x)
+               | None =>
+                   match find (fun f' => negb (closed m f') && negb (existsb (fun p => Nat.eqb (snd p) f') (oflag x)) &&
+                                         is_some (pick_timer m f' (nextt m) None)) (fds x) with
+                   | Some f' => match bindo (closed m) (oflag x) obj f' with
+                                | Some ofl => Some (f', set_oflag x ofl (filter (fun o => negb (Z.eqb o obj)) (preflag x)))
+                                | None => None end
+                   | None => None
+                   end
+               end) with
         | None => None
-        | Some f' =>
+        | Some (f', x) =>
             match bindthr (selthr x) f' t, pick_timer m f' (nextt m) None with
             | Some sth, Some e =>
                 chk (Bool.eqb (znz v) (flag m f'))
